@@ -497,7 +497,9 @@ class Buildable(Generic[T], metaclass=abc.ABCMeta):
     )
     var_positional_start = self.__signature_info__.var_positional_start
     index_range = slice_key.indices(len(all_positional_args))
-    if var_positional_start is None or index_range[0] < var_positional_start:
+    # Smallest index addressed by the slice (its start if the range is empty).
+    first_index = min(range(*index_range), default=index_range[0])
+    if var_positional_start is None or first_index < var_positional_start:
       # The slice key spans on non-variadic positional arguments, this set item
       # operation cannot modify the total length of full positiona args list.
       indices = range(*index_range)
